@@ -1,7 +1,7 @@
 (* Extraction of the executable Model and Spec definitions.  ExtrOcamlBasic only: bool, option, list, prod,
    unit, sumbool, sumor map to OCaml natives; N / positive / nat / string / ascii stay Coq datatypes. *)
 From Coq Require Extraction ExtrOcamlBasic.
-From QV Require Import Model.Base Generated.Tables Model.Quote Model.Unquote Model.Split Model.PortRange Model.Unit Model.Parser Model.Path Spec.SdExtract.
+From QV Require Import Model.Base Generated.Tables Model.Quote Model.Unquote Model.Split Model.PortRange Model.Unit Model.Lex Model.Parser Model.Path Spec.SdExtract.
 Extraction Language OCaml.
 Extraction "Extract/model.ml"
   s2l
